@@ -57,6 +57,8 @@ def values_of(t):
                 continue
             if isinstance(x, int) and abs(x) > 2 ** 24 and y != x:
                 continue
+            if abs(y) in (2.0 ** 63, 2.0 ** 64):
+                continue                  # (double)MAX of the 64-bit types: representability debatable, not used
             if y not in out and not (y != y and any(z != z for z in out)):
                 out.append(y)
         return out
@@ -65,6 +67,8 @@ def values_of(t):
         for x in ints + fl:
             y = float(x)
             if isinstance(x, int) and y != x:
+                continue
+            if abs(y) in (2.0 ** 63, 2.0 ** 64):
                 continue
             if y not in out and not (y != y and any(z != z for z in out)):
                 out.append(y)
@@ -81,8 +85,10 @@ def convert(x, src, dst):
         if isinstance(x, float):
             if x != x or x in (float("inf"), float("-inf")):
                 return "out", None
-            if x != int(x) and (abs(x) > 2 ** 23):
-                return None, None         # fractional values near bounds: not used (representability is debatable)
+            if x != int(x) and (abs(x) > 2 ** 23 or (lo == 0 and -1 < x < 0)):
+                return None, None         # fractional values at a bound: not used (representability is debatable)
+            if abs(x) in (2.0 ** 63, 2.0 ** 64) and hi >= 2 ** 63 - 1:
+                return None, None         # equals (double)MAX of a 64-bit type although it exceeds MAX: not used
             t = int(x)                    # truncation toward zero
         else:
             t = x
@@ -104,6 +110,8 @@ def convert(x, src, dst):
                 return None, None
         return "in", f32(float(x))
     if dst == "double":
+        if isinstance(x, float) and x in (float("inf"), float("-inf")):
+            return None, None             # Inf into a double: not used
         if isinstance(x, int):
             d = float(x)
             return "in", d
@@ -165,9 +173,11 @@ def build(tier, rng):
                             exp.append(proj(e) if e is not None else "none")
                         cls.append(c)
                     pairs += 1
+                    if it == "long":   # the default fill value of memory type long is not documented: unconstrained
+                        exp = ["?" if c == "out" or (c == "exempt" and fmtno == 5) else e for c, e in zip(cls, exp)]
                     steps.append({"op": "get", "v": 0, "form": "vara", "mode": "coll", "itype": it, "start": [0], "count": [len(nat)], "n": len(nat),
                                   "what": "get", "srctext": srct, "dsttext": dstt, "fmtno": fmtno, "cls": cls, "exp": exp,
-                                  "fill": proj(DEFFILL[itx]) if itx != "char" else 0, "obs": []})
+                                  "fill": "?" if it == "long" else (proj(DEFFILL[itx]) if itx != "char" else 0), "obs": []})
                 steps.append({"op": "close", "setup": 1})
                 execs.append({"x": "v%d" % n, "steps": steps})
                 n += 1
@@ -188,8 +198,12 @@ def build(tier, rng):
                         cls.append(c)
                         exp.append(proj(e) if e is not None else "none")
                     pairs += 1
-                    steps.append({"op": "put_att", "v": -1, "name": "a", "xtype": xt, "itype": it, "vals": use, "what": "putatt", "srctext": False,
-                                  "dsttext": False, "fmtno": fmtno, "cls": cls, "exp": exp, "fill": proj(DEFFILL[xt]), "obs": ["disk"]})
+                    meta = {"srctext": False, "dsttext": False, "fmtno": fmtno, "cls": cls, "exp": exp, "fill": proj(DEFFILL[xt]),
+                            "dbg": {"xtype": xt, "itype": it, "vals": [proj(x) for x in use]}}
+                    steps.append(dict(meta, op="put_att", v=-1, name="a", xtype=xt, itype=it, vals=use, what="putatt_rc", obs=[]))
+                    steps.append({"op": "enddef", "setup": 1})
+                    steps.append(dict(meta, op="noop", what="putatt", obs=["disk"]))
+                    steps.append({"op": "redef", "setup": 1})
                     # and read it back through every memory type
                     stored = [e if c != "out" and not (c == "exempt" and fmtno == 5) else DEFFILL[xt] for c, e in
                               [(convert(x, itx, xt)) for x in use]]
@@ -197,6 +211,8 @@ def build(tier, rng):
                         if it2 == "text":
                             continue
                         cls2, exp2 = [], []
+                        if any(convert(y, xt, itx2)[0] is None for y in stored):
+                            continue      # a value of debatable representability is stored: this read decides nothing
                         for y in stored:
                             c, e = convert(y, xt, itx2)
                             if c is None:
@@ -208,7 +224,8 @@ def build(tier, rng):
                         if tier == "quick" and rng.random() < 0.7:
                             continue
                         steps.append({"op": "get_att", "v": -1, "name": "a", "itype": it2, "what": "getatt", "srctext": False, "dsttext": False,
-                                      "fmtno": fmtno, "cls": cls2, "exp": exp2, "fill": proj(DEFFILL[itx2]), "obs": []})
+                                      "fmtno": fmtno, "cls": cls2, "exp": exp2, "fill": "?" if it2 == "long" else proj(DEFFILL[itx2]), "obs": [],
+                                      "dbg": {"xtype": xt, "stored": [proj(y) for y in stored]}})
                 steps.append({"op": "close", "setup": 1})
                 execs.append({"x": "a%d" % n, "steps": steps})
                 n += 1
